@@ -35,8 +35,9 @@ Mk(sr, sa, K) ==
         N4 == IF sa = "-" THEN N3 ELSE Add(N3, a, Nd("attr", 0, <<>>, XmlNs, "space", SpaceVal(sa)))
     IN AddKids(N4, a, K, 1)
 VARIABLE F
-Init == \E sr \in {"-", "preserve", "default", "other"}, sa \in {"-", "preserve", "default", "other"}, K \in KidSeqs :
-            F = [n |-> Mk(sr, sa, K), cons |-> FALSE, eo |-> TRUE]
+\* consolidation off, or switched on again after the (possibly adjacent) text nodes were put in place
+Init == \E sr \in {"-", "preserve", "default", "other"}, sa \in {"-", "preserve", "default", "other"}, K \in KidSeqs, cons \in BOOLEAN :
+            F = [n |-> Mk(sr, sa, K), cons |-> cons, eo |-> TRUE]
 Next == UNCHANGED F
 Spec == Init /\ [][Next]_F
 ValidInput == StructValidCore(F.n)
